@@ -26,6 +26,7 @@ type FaultSpec struct {
 	Call int    `json:"call"` // position in the call trace (0-based)
 	Mode string `json:"mode"` // before | after (after J elements) | fail (non-streaming call) | cancel (the caller's context is cancelled when the call starts / after J elements; the call itself does not fail unless the driver is context aware)
 	J    int    `json:"j,omitempty"`
+	W    int    `json:"w,omitempty"` // when > 0: the fault hits the W-th AddTriples / RemoveTriples call instead of call position Call
 }
 
 type callRec struct {
@@ -62,6 +63,7 @@ type simStore struct {
 	trace []*callRec
 	fired map[string]int
 	armedAt int
+	writes   int
 	inflight int
 	probes   map[string]int // reach probes: rare conditions that were actually hit
 	failed  int // calls that returned an error to the engine (injected, or ctx.Err() of a context aware driver)
@@ -80,7 +82,16 @@ func (s *simStore) begin(ctx context.Context, method, desc string, stream, write
 	rec := &callRec{Idx: len(s.trace), Method: method, Desc: desc, Stream: stream, Write: write}
 	s.trace = append(s.trace, rec)
 	var f *FaultSpec
+	if write && (method == "AddTriples" || method == "RemoveTriples") {
+		s.writes++
+	}
 	for i := range s.cfg.Faults {
+		if w := s.cfg.Faults[i].W; w > 0 {
+			if write && (method == "AddTriples" || method == "RemoveTriples") && s.writes == w {
+				f = &s.cfg.Faults[i]
+			}
+			continue
+		}
 		if s.cfg.Faults[i].Call == rec.Idx {
 			f = &s.cfg.Faults[i]
 		}
